@@ -27,18 +27,18 @@ import (
 )
 
 type tconfig struct {
-	Name      string
-	SrvIWS    int64 // server's SETTINGS_INITIAL_WINDOW_SIZE (the transport's stream send windows)
-	ConnRoom  int64 // transport's connection send window left after the prelude; -1 = 65535
-	PerStream int   // transport's receive buffer per stream (its SETTINGS_INITIAL_WINDOW_SIZE)
-	PerConn   int   // transport's receive buffer per connection
-	BodyN     []int64
-	WUk       []int64
-	SetV      []int64
-	DataLen   []int64
-	Pads      []int
-	ReadN     []int64
-	ClosedLen []int64
+	Name       string
+	SrvIWS     int64 // server's SETTINGS_INITIAL_WINDOW_SIZE (the transport's stream send windows)
+	ConnRoom   int64 // transport's connection send window left after the prelude; -1 = 65535
+	PerStream  int   // transport's receive buffer per stream (its SETTINGS_INITIAL_WINDOW_SIZE)
+	PerConn    int   // transport's receive buffer per connection
+	BodyN      []int64
+	WUk        []int64
+	SetV       []int64
+	DataLen    []int64
+	Pads       []int
+	ReadN      []int64
+	ClosedLen  []int64
 	MaxStreams int
 	Depth      int
 }
@@ -48,10 +48,10 @@ type treq struct {
 	idx int
 	id  uint32
 
-	bodyCmd chan int64 // >0: the request body yields n bytes; 0: EOF
+	bodyCmd    chan int64    // >0: the request body yields n bytes; 0: EOF
 	bodyClosed chan struct{} // closed by Request.Body.Close (the transport gives the body up): unblocks a pending Read
 	closeOnce  sync.Once
-	rcmd    chan hcmd  // response body: rd n / cb
+	rcmd       chan hcmd // response body: rd n / cb
 
 	mu        sync.Mutex
 	wantBody  bool  // the transport is blocked in Request.Body.Read
@@ -126,22 +126,22 @@ func (b ctlBody) Close() error {
 }
 
 type tworld struct {
-	cfg    tconfig
-	cl, sv *memnet.Conn
-	tr     *http2.Transport
-	cc     *http2.ClientConn
-	led    *ledger.Ledger
-	sp, tp h2wire.Parser
-	enc    *h2wire.Encoder
-	reqs   map[int]*treq
-	rmu    sync.Mutex
+	cfg          tconfig
+	cl, sv       *memnet.Conn
+	tr           *http2.Transport
+	cc           *http2.ClientConn
+	led          *ledger.Ledger
+	sp, tp       h2wire.Parser
+	enc          *h2wire.Encoder
+	reqs         map[int]*treq
+	rmu          sync.Mutex
 	opened, base int
-	sentBody map[uint32]int64
-	prefaceSeen bool
-	viol   []ledger.Violation
-	trace  []string
-	keepTrace bool
-	trMaxFrame int64
+	sentBody     map[uint32]int64
+	prefaceSeen  bool
+	viol         []ledger.Violation
+	trace        []string
+	keepTrace    bool
+	trMaxFrame   int64
 }
 
 func newTWorld(cfg tconfig) *tworld {
